@@ -43,7 +43,7 @@ BOUNDS = {
     "thorough": dict(devices=["bar2", "tee3", "cross4"], terminals="2..4", acceptance_terminals=[2, 3, 4, 5]),
 }
 ASSUMPTIONS = [
-    "one step from an arbitrary state: supercurrent an arbitrary edge field (the identity is linear in it), psi' arbitrary (opaque psi-kernel), A(t_n), A(t_n-1) arbitrary, mesh weights arbitrary positive reals, terminal membership concrete (real device meshes)",
+    "one step from an arbitrary state: supercurrent an arbitrary edge field (the identity is linear in it), psi' arbitrary (opaque psi-kernel), A(t_n), A(t_n-1) arbitrary, cell areas and dual edge lengths arbitrary positive reals, edge lengths geometric, terminal membership concrete (real device meshes)",
     "LU contract: mu is *any* solution of L mu = rhs (solvability of the singular Neumann system for balanced currents is part of the contract)",
     "exact reals for the conservation identity",
     "acceptance: standard model of floating-point arithmetic (relative error <= 2^-53 per operation, no underflow/overflow); inputs exactly balanced over the reals",
@@ -54,7 +54,14 @@ REACH_TIMEOUT = 60
 
 
 def patch_spec(case):
-    return S.patch_spec()
+    spec = S.patch_spec()
+    import tdgl.solver.solver as sol
+
+    real_validate = sol.validate_terminal_currents
+    # the constructor samples a callable current 100 times; 2 samples keep the exploration small
+    # (validation itself is the subject of the acceptance cases and of C19)
+    spec["tdgl.solver.solver"]["validate_terminal_currents"] = lambda c, ti, o, num_evals=100: real_validate(c, ti, o, num_evals=2)
+    return spec
 
 
 def cases(tier, seed):
@@ -70,7 +77,8 @@ def cases(tier, seed):
 def body(H, case):
     if case.kind == "accept":
         return body_accept(H, case)
-    dev = S.symbolic_device(H, case.dev, case.seed)
+    # edge lengths stay geometric (they order the terminals); areas and dual lengths are symbolic
+    dev = S.symbolic_device(H, case.dev, case.seed, lengths=False)
     mesh = dev.mesh
     em = mesh.edge_mesh
     ns, ne = len(mesh.sites), len(em.edges)
